@@ -195,6 +195,17 @@ impl Ctx {
                     let hits = (0..n).filter(|&i| m.verify_nested_explicit(i, &pk).is_ok()).count();
                     all &= hits == 1;
                 }
+                // every verifying interface that applies: verify, verify_nested with all keys in
+                // signing order, in reverse order, and with each key alone
+                use pgp::composed::VerificationResult as VR;
+                let pks: Vec<SignedPublicKey> = keys.iter().map(|k| SignedPublicKey::from((*k).clone())).collect();
+                // (verify looks at the signature at index 0 only: exactly one of the signers passes it)
+                all &= pks.iter().filter(|pk| m.verify(*pk).is_ok()).count() == 1;
+                let valid = |refs: &[&dyn pgp::types::VerifyingKey]| -> bool { m.verify_nested(refs).map(|v| v.len() == refs.len() && v.iter().all(|r| matches!(r, VR::Valid(_)))).unwrap_or(false) };
+                let fwd: Vec<&dyn pgp::types::VerifyingKey> = pks.iter().map(|p| p as &dyn pgp::types::VerifyingKey).collect();
+                let rev: Vec<&dyn pgp::types::VerifyingKey> = pks.iter().rev().map(|p| p as &dyn pgp::types::VerifyingKey).collect();
+                all &= valid(&fwd) && valid(&rev);
+                for p in &pks { all &= valid(&[p as &dyn pgp::types::VerifyingKey]); }
                 Some(all)
             }).ok().flatten().unwrap_or(false),
             _ => false,
@@ -279,6 +290,8 @@ fn main() {
             cx.multi(&[&k_ed4, &k_ec, &k_rsa], text, p, "multi-3");
             cx.multi(&[&k_ed6, &k_448], text, p, "multi-2-v6");
             cx.multi(&[&k_ed4, &k_ed6], text, p, "multi-mixed-v4-v6");
+            cx.multi(&[&k_ed6, &k_ed4], text, p, "multi-mixed-v6-v4");
+            cx.multi(&[&k_ed6, &k_ec, &k_448], text, p, "multi-mixed-v6-v4-v6");
         }
     }
     cx.out.finish();
